@@ -23,6 +23,7 @@ import Proofs.Fitter
 import Proofs.FitterText
 import Proofs.FitTotal
 import Proofs.FitDelete
+import Proofs.FitInline
 import Proofs.Placement
 import Props.C01
 namespace PM.C11
@@ -678,6 +679,55 @@ example :
     fitsTriviallyO S doc 2 6 Slice.empty = some false ∧
     (match replaceStep S doc 2 6 Slice.empty with
      | .ok (some (.replace 2 6 sl _)) => sl == Slice.empty
+     | _ => false) = true := by decide +kernel
+
+/-! ### totality for inserting inline leaves (typed text, hard breaks, images): full statement
+
+A closed slice whose content consists of leaf / text nodes (`Slice.inlineLeaves`) — what `insert`,
+`replace_with` and typing produce for inline content.  Here the loop of `fit` does run; it keeps the
+invariant `LoopInv` (Proofs/FitInline.lean): every frontier entry holds a match, `placed` has a
+last-child chain as long as the frontier, the unplaced slice stays closed and flat (so `open_start`
+stays 0 and only slice level 0 is ever looked at), and `placed` is large enough for a
+non-negative `insert`.  One more decidable hypothesis on the schema, `Schema.wrapOKB`: wrapper types
+are not the text type, and a type for which pass 2 of `find_fittable` answers a non-empty wrapping
+does not match right after the first wrapper either (otherwise `place_nodes`, which reads
+`frontier[frontier_depth]` after opening the wrappers, places the node *next to* the wrapper and
+`placed` and the frontier fall out of step — also upstream). -/
+
+/-- **`insertInline_total`** — for every range `f ≤ t` inside a valid document and every closed slice
+    of leaf / text nodes of the schema, `replace_step` returns `None` or a step: it does not raise,
+    does not run out of fuel, never needs a negative `insert` -/
+theorem insertInline_total (S : Schema) (hdet : detB S = true) (hfill : S.fillersOKB = true)
+    (hwrap : S.wrapOKB = true) (doc : Node) (f t : Nat) (sl : Slice) (hsl : sl.inlineLeaves S = true)
+    (hv : C01.Valid S doc) (hattrs : S.nodeAttrsOK doc = true)
+    (htop : S.isTextblockO (S.tyOf doc) = false) (hft : f ≤ t) (ht : t ≤ fsize doc.kids) :
+    ∃ r, replaceStep S doc f t sl = .ok r :=
+  replaceStep_inline_total S (detS_of_detB S hdet) (fillersOK_of_B S hfill) (wrapOK_of_B S hwrap) doc f t sl hsl
+    hv hattrs htop (by omega) ht
+
+/-- the invariant of the loop behind `insertInline_total`: every iteration goes through and keeps it -/
+theorem loopInv_step (S : Schema) (hdet : detB S = true) (hfill : S.fillersOKB = true) (hwrap : S.wrapOKB = true)
+    (D : Nat) (st : FitState) (inv : LoopInv S D st) : ∃ st', fitStep S st = .ok st' ∧ LoopInv S D st' :=
+  fitStep_ok S (detS_of_detB S hdet) (fillersOK_of_B S hfill) (wrapOK_of_B S hwrap) D st inv
+
+/-- the hypotheses are satisfiable and the loop really runs: typing `"x"` between the two paragraphs of
+    `doc(p("ab"), p("cd"))` (position 4, where text does not fit: pass 2 wraps it in a paragraph) -/
+example :
+    let nt (name : String) (isText inl : Bool) (dfa : Array DfaState) : NodeType :=
+      { name := name, isText := isText, isInline := isText, isLeaf := isText, isAtom := isText,
+        inlineContent := inl, isolating := false, defining := false, code := false,
+        dfa := dfa, markSet := none, attrs := [] }
+    let S : Schema := { nodes := #[nt "doc" false false #[⟨false, [(1, 1)]⟩, ⟨true, [(1, 1)]⟩],
+                                   nt "paragraph" false true #[⟨true, [(2, 0)]⟩],
+                                   nt "text" true false #[⟨true, []⟩]],
+                        marks := #[], top := 0, textTy := 2 }
+    let doc := Node.elem 0 [] [] [.elem 1 [] [] [.text [97, 98] []], .elem 1 [] [] [.text [99, 100] []]]
+    let sl : Slice := ⟨[.text [120] []], 0, 0⟩
+    detB S = true ∧ S.fillersOKB = true ∧ S.wrapOKB = true ∧ sl.inlineLeaves S = true ∧
+    S.checkNode doc = true ∧ S.nodeAttrsOK doc = true ∧ S.isTextblockO (S.tyOf doc) = false ∧
+    fitsTriviallyO S doc 4 4 sl = some false ∧
+    (match replaceStep S doc 4 4 sl with
+     | .ok (some (.replace 4 4 sl' _)) => sl' == ⟨[.elem 1 [] [] [.text [120] []]], 0, 0⟩
      | _ => false) = true := by decide +kernel
 
 /-! ### the fuelled searches the Fitter calls (PM/FillOrder.lean) -/
